@@ -28,8 +28,8 @@ class Lock:
         self.f.close()
 
 
-def sh(cmd, cwd=None, timeout=None, stdin=None):
-    p = subprocess.run(cmd, cwd=cwd, env=ENV, stdout=subprocess.PIPE, stderr=subprocess.STDOUT,
+def sh(cmd, cwd=None, timeout=None, stdin=None, env=None):
+    p = subprocess.run(cmd, cwd=cwd, env=env or ENV, stdout=subprocess.PIPE, stderr=subprocess.STDOUT,
                        timeout=timeout, stdin=stdin)
     return p.returncode, p.stdout.decode("utf-8", "replace")
 
@@ -142,9 +142,26 @@ def parse_log(text):
     return res
 
 
-def run_impl(path, annotate=None):
-    rc, out = sh([TRH, path] + (["--annotate", annotate] if annotate else []), timeout=3600)
+# A hung case (deadlock / endless loop inside the middleware): the harness's watchdog prints the log so far and
+# `#harness-hang <case> <op index> <op line>` and exits with HANG_RC when one operation made no progress for TRH_HANG_MS
+# of wall time. The case is a failing case (the hang is the observation), the remaining cases are run in a new process.
+HANG_RC = 4
+HANG_MS_FIRST = int(os.environ.get("VERIF_HANG_MS", "5000"))   # the first hang of a batch is waited for this long
+HANG_MS_NEXT = int(os.environ.get("VERIF_HANG_MS_NEXT", "1500"))  # … later ones (and shrinking a hung case) this long
+HANG_BUDGET_S = 45.0                                            # wall time a batch may spend waiting for hangs
+
+
+def run_impl(path, annotate=None, hang_ms=None):
+    env = dict(ENV, TRH_HANG_MS=str(hang_ms)) if hang_ms else None
+    rc, out = sh([TRH, path] + (["--annotate", annotate] if annotate else []), timeout=3600, env=env)
     return rc, parse_log(out), out
+
+
+def hung_case(part):
+    for n, (_, meta) in part.items():
+        if any(m.startswith("#harness-hang") for _, m in meta):
+            return n
+    return None
 
 
 def run_model(path):
@@ -153,15 +170,38 @@ def run_model(path):
     return rc, parse_log(out), out
 
 
-def run_both(cases, tag):
+def run_both(cases, tag, hang_ms=None):
     os.makedirs(WORK, exist_ok=True)
     path = os.path.join(WORK, "%s-%d.ops" % (tag, os.getpid()))
-    write_cases(path, cases)
     ann = path + ".ann"
-    rci, impl, rawi = run_impl(path, ann)
-    # the model consumes the annotated file: same operations, `settle`/`dropall` expanded into the
-    # polls/drops the harness performed, observed nondeterministic choices appended as ` @k=v`
-    rcm, model, rawm = run_model(ann if os.path.exists(ann) else path)
+    impl, model = {}, {}
+    start, waited, hang_ms = 0, 0.0, hang_ms or HANG_MS_FIRST
+    while True:
+        write_cases(path, cases[start:], start)
+        if os.path.exists(ann):
+            os.remove(ann)
+        rci, part, rawi = run_impl(path, ann, hang_ms)
+        # the model consumes the annotated file: same operations, `settle`/`dropall` expanded into the
+        # polls/drops the harness performed, observed nondeterministic choices appended as ` @k=v`
+        rcm, mpart, rawm = run_model(ann if os.path.exists(ann) else path)
+        impl.update(part)
+        model.update(mpart)
+        n = hung_case(part) if rci == HANG_RC else None
+        if n is None:
+            break
+        # case n hung (it has no annotated form, hence no model run); go on with the cases after it
+        model.pop(n, None)
+        rci = 0
+        waited += hang_ms / 1000.0
+        hang_ms = min(hang_ms, HANG_MS_NEXT)
+        start = n + 1
+        if start >= len(cases):
+            break
+        if waited > HANG_BUDGET_S:
+            for j in range(start, len(cases)):
+                impl[j] = ([], [(0, "#not-run too many hung cases in this batch")])
+                model.pop(j, None)
+            break
     for q in (path, ann):
         try:
             os.remove(q)
@@ -195,6 +235,19 @@ def evaluate(spec, case, impl_entry, model_entry):
         ctx.infra = "harness produced no output for the case"
         return ctx
     ilines, imeta = impl_entry
+    hang = [m for _, m in imeta if m.startswith("#harness-hang")]
+    if hang:
+        # the hang is the observation: a failing case with a concrete replay, not an infrastructure error
+        w = hang[0].split(None, 3)
+        fn = spec.get("hang_message")
+        msg = fn(case, ilines, imeta) if fn else None
+        ctx.monitor = ("harness-hang", "%s — operation %s (`%s`) made no progress for the watchdog's wall-time limit: a call that never "
+                       "returns (deadlock or endless loop inside the middleware). Log of the case up to the hang: %s" % (
+                           msg or "the harness hung", w[2] if len(w) > 2 else "?", w[3] if len(w) > 3 else "?", " | ".join(ilines[-12:])))
+        return ctx
+    if any(m.startswith("#not-run") for _, m in imeta):
+        ctx.infra = "not run: " + ";".join(m for _, m in imeta)
+        return ctx
     if any(m.startswith("#harness-panic") or m.startswith("#unknown-middleware") for _, m in imeta):
         ctx.infra = "harness: " + ";".join(m for _, m in imeta if not m.startswith("#fp") and not m.startswith("#drop"))
     pinned = None
@@ -242,12 +295,12 @@ def call_transitions(spec, case, ilines, meta):
     return fn(case, ilines)
 
 
-def eval_single(spec, case):
-    impl, model, _ = run_both([case], "one")
+def eval_single(spec, case, hang_ms=None):
+    impl, model, _ = run_both([case], "one", hang_ms)
     return evaluate(spec, case, impl.get(0), model.get(0))
 
 
-def shrink(spec, case, pred, budget=400):
+def shrink(spec, case, pred, budget=400, hang_ms=None):
     """delta debugging on op lines; pred(ctx) says whether the failure of interest persists"""
     ops = list(case["ops"])
     n = 2
@@ -259,7 +312,7 @@ def shrink(spec, case, pred, budget=400):
         while i < len(ops) and evals < budget:
             cand = ops[:i] + ops[i + chunk:]
             evals += 1
-            ctx = eval_single(spec, {"header": case["header"], "ops": cand})
+            ctx = eval_single(spec, {"header": case["header"], "ops": cand}, hang_ms)
             if pred(ctx):
                 ops = cand
                 reduced = True
@@ -364,7 +417,9 @@ def run_check(prop, tier, seed, replay, ncases, no_build=False):
     proof_ok = True
     lean_out = ""
     if not no_build:
-        rc, lean_out = build_lean([spec["module"], "trdriver"])
+        # the property module, every model/lemma/mutant module the spec names (a refuted-mutant module is not imported
+        # by the property module, so it is named here to be re-checked on every run), and the model driver
+        rc, lean_out = build_lean([spec["module"]] + [m for m in spec.get("model_modules", []) if m != spec["module"]] + ["trdriver"])
         if rc != 0:
             proof_ok = False
     # 3. audit
@@ -470,9 +525,17 @@ def run_check(prop, tier, seed, replay, ncases, no_build=False):
         if what in reported_kinds:
             continue
         reported_kinds.add(what)
-        if ctx.monitor:
+        if ctx.monitor and what == "harness-hang":
+            # every candidate that still hangs costs the watchdog's limit: few evaluations, short limit; the result is
+            # confirmed with the full limit (else the original case is reported)
+            small = shrink(spec, case, lambda c: c.monitor is not None and c.monitor[0] == what, budget=40, hang_ms=HANG_MS_NEXT)
+            ctx2 = eval_single(spec, small)
+            if not (ctx2.monitor and ctx2.monitor[0] == what):
+                small, ctx2 = case, ctx
+        elif ctx.monitor:
             small = shrink(spec, case, lambda c: c.monitor is not None and c.monitor[0] == what)
             ctx2 = eval_single(spec, small)
+        if ctx.monitor:
             payload = {"property": prop, "kind": "monitor", "monitor": what,
                        "message": (ctx2.monitor or ctx.monitor)[1], "case": small,
                        "original_case": case, "seed": seed,
